@@ -231,24 +231,28 @@ def _init_worker(root):
     set_scratch_root(root)
 
 def pmap(fn, tasks, jobs=None, budget_s=None):
-    """run fn(task) over tasks in worker processes; yields (task, result|Exception). Stops submitting
-    results after budget_s (remaining tasks are cancelled)."""
+    """run fn(task) over tasks in worker processes; yields (task, result|Exception). After budget_s no
+    new task is started (queued ones are cancelled); the ones already running are waited for and yielded."""
     jobs = jobs or NCPU
     root = scratch_root()
     t0 = time.time()
     with ProcessPoolExecutor(max_workers=jobs, initializer=_init_worker, initargs=(root,)) as ex:
         futs = {ex.submit(fn, t): t for t in tasks}
         try:
+            over = False
             for f in as_completed(futs):
+                if f.cancelled():
+                    continue
                 t = futs[f]
                 try:
                     yield t, f.result()
                 except Exception as e:  # worker-side harness error
                     yield t, e
-                if budget_s and time.time() - t0 > budget_s:
+                if budget_s and not over and time.time() - t0 > budget_s:
+                    # budget used up: nothing new is started; tasks already running are waited for and their results still count
+                    over = True
                     for g in futs:
                         g.cancel()
-                    break
         finally:
             for g in futs:
                 g.cancel()
